@@ -249,10 +249,14 @@ func propMain(args []string, o RunOpts, tier string) int {
 			drift = append(drift, r.Fn+": "+r.Drift)
 			fmt.Printf("CONTRACT-DRIFT: %s: %s (its site-anchored clauses are undecided for this run; the rest of the function is checked)\n", r.Fn, r.Drift)
 		}
-		if r.Error != "" {
+		partial := false
+		if r.Error != "" && strings.HasPrefix(r.Error, "out-of-subset") {
+			outOfSubset = append(outOfSubset, r.Fn+": "+r.Error)
+			fmt.Printf("OUT-OF-SUBSET: %s: %s (undecided for this run: only obligations generated before that point and refuted by a solver are reported, nothing of this function is counted as discharged)\n", r.Fn, r.Error)
+			partial = true
+		}
+		if r.Error != "" && !partial {
 			if strings.HasPrefix(r.Error, "out-of-subset") {
-				outOfSubset = append(outOfSubset, r.Fn+": "+r.Error)
-				fmt.Printf("OUT-OF-SUBSET: %s: %s (undecided for this run: none of its obligations is counted)\n", r.Fn, r.Error)
 			} else if strings.HasPrefix(r.Error, "contract error") {
 				// the contract can no longer be bound to the code (renamed local, moved call, ...):
 				// undecided, not a violation; the bounded stand-in decides
@@ -270,7 +274,7 @@ func propMain(args []string, o RunOpts, tier string) int {
 		for _, d := range r.DeadReturns {
 			deadReturns = append(deadReturns, r.Fn+":"+d)
 		}
-		if r.Contract {
+		if r.Contract && !partial {
 			fnsUnderContract = append(fnsUnderContract, r.Fn)
 		}
 		for _, a := range r.Assumptions {
@@ -285,6 +289,9 @@ func propMain(args []string, o RunOpts, tier string) int {
 		for _, ob := range r.Obligations {
 			if !ob.Strong {
 				continue // nil-dereference and type-assertion sites are reported but not claimed
+			}
+			if partial && ob.Status != "sat" {
+				continue
 			}
 			if len(ps.OnlyKinds) > 0 {
 				keep := false
